@@ -1587,7 +1587,8 @@ class Alarm(Component):
         trigger = self.get("TRIGGER")
         if trigger is None:
             return "START"
-        return trigger.params.get("RELATED", "START")
+        # unquoted parameter values are case-insensitive (RFC 5545, 3.2)
+        return str(trigger.params.get("RELATED", "START")).upper()
 
     @TRIGGER_RELATED.setter
     def TRIGGER_RELATED(self, value: str):
